@@ -199,3 +199,32 @@ Definition dyn_case (id : Z) (fx : Fixes) (plus resolver : bool) (c : Cluster) (
                         (pod_orders c) in
   [id; if agrees then 1 else 0; if k =? 0 then 1 else 0; if is_nil entry then 0 else 1;
    500 + branch_tag fx plus c ns b; k].
+
+(* ---------- the resource family: one backend of a resource with several backends ---------- *)
+(* The observations of one backend: its Endpoints entry, the server lines of ITS upstream block
+   in the file written last, and what was pushed for ITS upstream through the NGINX Plus API
+   (after an endpoints-only update).  Model (X): the single-backend entry in the owner's
+   namespace [ns] (pointwise by ingress_no_leak / vs_no_leak), its rendering, and [pushed].
+   Specification (S): spec_kind on the entry and the server lines; the pushed servers equal the
+   server lines of the file (failure kind 7). *)
+Definition opt_perm (a : option (list string)) (present : bool) (l : list string) : bool :=
+  match a with
+  | Some x => present && perm_eqb x l
+  | None => negb present
+  end.
+
+Definition res_item_case (id : Z) (fx : Fixes) (plus resolver : bool) (c : Cluster) (ns : string) (b : Backend)
+           (obs_entry : list string) (obs_extsvc : bool) (obs_servers : list string)
+           (was_pushed : bool) (obs_pushed : list string) : list Z :=
+  let agrees := existsb (fun c' =>
+                  let e := endpoints_entry fx plus c' ns b in
+                  perm_eqb (fst e) obs_entry && Bool.eqb (snd e) obs_extsvc &&
+                  perm_eqb (rendered plus resolver (b_kind b) e) obs_servers &&
+                  opt_perm (pushed plus (b_kind b) e) was_pushed obs_pushed) (pod_orders c) in
+  let k0 := spec_kind plus resolver c ns b obs_entry obs_extsvc obs_servers in
+  let push_ok := if obs_extsvc then true
+                 else if plus then was_pushed && perm_eqb obs_pushed obs_servers
+                 else negb was_pushed in
+  let k := if k0 =? 0 then (if push_ok then 0 else 7) else k0 in
+  [id; if agrees then 1 else 0; if k =? 0 then 1 else 0; if is_nil obs_entry then 0 else 1;
+   600 + branch_tag fx plus c ns b; k].
